@@ -104,7 +104,7 @@ def _case(draw, tier):
         own_pure = [p for p in tnode["params"] if p not in prod0 and not any(p in n.get("defaults", {}) for n in topo)]
         gp = draw(st.sampled_from(own_pure)) if own_pure and draw(st.booleans()) else "gx"
         topo.insert(0, {"k": "ifelse", "name": "gup", "params": [gp], "defaults": {}, "outs": [], "t": entry[0], "f": "END", "table": [False],
-                        "default_open": True})  # a closed-by-default gate that never decides keeps its target shut (C03), scope or not
+                        "default_open": draw(st.booleans())})  # a closed-by-default gate that never decides keeps its target shut (C03), scope or not
     outs = [o for n in topo for o in n["outs"]]
     emits = [o for n in topo for o in n.get("emit", [])]
     prod = ref.producers(topo)
@@ -432,6 +432,13 @@ def check_case(case, ev):
 
     # ---- reference
     answers = {}
+    # a CLOSED-by-default gate outside the scope never runs, hence never decides: the entry node it controls stays shut (entry points
+    # say where a run may start, they do not open gates), and so does everything that needs its outputs
+    shut = {n["t"] for n in topo if n["name"] == "gup" and not n.get("default_open", True)}
+    scope = set(active)
+    active = set(active) - shut
+    if shut:
+        labels.add("entry_node_behind_a_closed_gate_outside_the_scope")
     env, args = ref.eval_dag(topo, vals, {}, active=active, answers=answers)
     # waiters only run when their signal is produced by an executed emitter
     executed_ref = {n["name"] for n in topo if n["name"] in active and args.get(n["name"]) is not None}
@@ -465,6 +472,9 @@ def check_case(case, ev):
 
     for which, o, r, w in (("derived-after-history", out, None, warns), ("fresh", out2, ran2, warns2)):
         t = f"{tag} [{which}]"
+        if r is not None and not r <= active and (r - active) <= shut:
+            raise Violation("c16.entry_node_behind_closed_gate_ran", f"[{t}] {sorted(r - active)} is controlled by a closed-by-default gate that lies outside the entry-point scope and therefore never decided, "
+                            "yet it executed", history=False)
         if r is not None and not r <= active:
             raise Violation("c16.upstream_ran", f"[{t}] nodes outside the entry points' downstream closure executed: {sorted(r - active)}", history=False)
         if o.status in ("raised", "failed") and isinstance(o.error, ValueError) and case["on_missing"] == "error" and "Requested outputs not found" in str(o.error):
